@@ -1,6 +1,6 @@
 """R-ARITH: arithmetic overflow asserts are discharged by simple range reasoning
 or listed in the reviewed table (thorough tier)."""
-from . import cfg, common, panics
+from . import cfg, common, facts as F, panics
 from .report import Pool
 
 WIDTH = {"u8": 8, "u16": 16, "u32": 32, "u64": 64, "usize": 64, "i8": 8, "i16": 16, "i32": 32, "i64": 64,
@@ -96,7 +96,7 @@ def _single_entry(fn, tg, frm):
     return all(p == frm for p in fn.pred_map()[tg])
 
 
-def discharge(fn, it, defs, idom):
+def discharge(fn, it, defs, idom, crate=None):
     t = it["term"]
     op = t.get("binop", "")
     ops = t["ops"]
@@ -119,6 +119,31 @@ def discharge(fn, it, defs, idom):
             return "shift by the constant %d < bit width" % cb
     if op in ("Div", "Rem") and cb is not None and cb not in (0, -1):
         return "division by the constant %d" % cb
+    if op in ("Div", "Rem") and ca is not None and aty in WIDTH and ca != -(1 << (WIDTH[aty] - 1)):
+        # signed division overflows only for MIN / -1
+        return "the dividend is the constant %d, not %s::MIN" % (ca, aty)
+    if op in ("Shl", "Shr") and crate is not None and b.get("c") in ("copy", "move"):
+        # shift amount = a parameter of a private function that every call site sets to a small constant
+        o = common.origin(fn, defs, b)
+        if o["k"] == "param" and not fn.is_pub:
+            k = o["l"]
+            amounts = set()
+            for g, bi, t2 in common.iter_calls(crate):
+                c2 = t2["callee"]
+                if (c2.get("resolved") or c2.get("path")) != fn.path:
+                    continue
+                v = common.const_int(t2["args"][k - 1]) if len(t2["args"]) >= k else None
+                if v is None:
+                    amounts = None
+                    break
+                amounts.add(v)
+            w = WIDTH.get(aty or "") or 8
+            if amounts and all(0 <= v < w for v in amounts):
+                return "shift amount is parameter %d, always one of %s (< %d) at its call sites" % (k, sorted(amounts), w)
+    if op == "Add" and _mem_bounded(fn, defs, a, 0) and _mem_bounded(fn, defs, b, 0):
+        return "sum of two quantities bounded by the size of an in-memory slice (each <= isize::MAX)"
+    if op == "Sub" and _sub_len_minus_position(fn, defs, a, b):
+        return "slice length minus (a position found in that slice + 1): position < length"
     if op == "Add" and cb == 1 and (aty in ("usize",) or _is_usize_place(fn, a)):
         return "usize counter += 1 (bounded by the input length / address space)"
     if op == "Sub" and cb is not None and cb >= 0:
@@ -133,6 +158,125 @@ def discharge(fn, it, defs, idom):
             if w and ca + ub < (1 << w) and not (bty or "").startswith("i"):
                 return "constant %d + value <= %d fits %s" % (ca, ub, bty)
     return None
+
+
+_BOUNDED_CALLS = ("<impl [T]>::len", "<impl str>::len", "Vec::<T, A>::len", "std::iter::Iterator::count",
+                  "std::iter::Iterator::position", "std::iter::Iterator::rposition", "memchr", "<impl [T]>::partition_point")
+
+
+def _mem_bounded(fn, defs, op, depth):
+    """A usize that counts elements / bytes of something held in memory (a length, a count, a position, a small
+    constant, or sums' operands thereof): never more than isize::MAX."""
+    if depth > 6:
+        return False
+    c = common.const_int(op)
+    if c is not None:
+        return 0 <= c < (1 << 32)
+    if op.get("c") not in ("copy", "move"):
+        return False
+    pl = op["pl"]
+    if pl["p"]:
+        # the payload of Option<usize> returned by position()/rposition()
+        if any(isinstance(e, dict) and e.get("n") == "Some" for e in pl["p"]):
+            ds = defs.get(pl["l"], [])
+            return len(ds) == 1 and ds[0][1] == "term" and any(
+                n.endswith(x) for n in F.callee_names(ds[0][2]) for x in _BOUNDED_CALLS)
+        return False
+    if fn.local_ty(pl["l"]) != "usize":
+        return False
+    ds = defs.get(pl["l"], [])
+    if len(ds) != 1:
+        return False
+    (_b, si, d) = ds[0]
+    if si == "term":
+        return d.get("k") == "call" and any(n.endswith(x) for n in F.callee_names(d) for x in _BOUNDED_CALLS)
+    if d["k"] == "use":
+        return _mem_bounded(fn, defs, d["op"], depth + 1)
+    if d["k"] == "un" and d["op"] == "PtrMetadata":
+        return True
+    return False
+
+
+def _sub_len_minus_position(fn, defs, a, b):
+    """`s.len() - (s.iter().rposition(..) + 1)`-style: a is a slice length, b is a found position (+ 1)."""
+    def is_len(op):
+        if op.get("c") not in ("copy", "move") or op["pl"]["p"]:
+            return False
+        ds = defs.get(op["pl"]["l"], [])
+        if len(ds) != 1:
+            return False
+        (_b, si, d) = ds[0]
+        if si == "term":
+            return any(n.endswith(x) for n in F.callee_names(d) for x in ("<impl [T]>::len", "<impl str>::len"))
+        return d["k"] == "un" and d["op"] == "PtrMetadata" or (d["k"] == "use" and is_len(d["op"]))
+
+    def is_pos_plus(op, depth=0):
+        if depth > 4 or op.get("c") not in ("copy", "move"):
+            return False
+        pl = op["pl"]
+        if any(isinstance(e, dict) and e.get("n") == "Some" for e in pl["p"]):
+            ds = defs.get(pl["l"], [])
+            return len(ds) == 1 and ds[0][1] == "term" and any(
+                n.endswith(x) for n in F.callee_names(ds[0][2]) for x in ("Iterator::position", "Iterator::rposition"))
+        if pl["p"] == [{"f": 0}] or (len(pl["p"]) == 1 and isinstance(pl["p"][0], dict) and pl["p"][0].get("f") == 0):
+            ds = defs.get(pl["l"], [])
+            if len(ds) == 1 and ds[0][1] != "term" and ds[0][2]["k"] == "bin" and ds[0][2]["op"] == "AddWithOverflow" \
+                    and common.const_int(ds[0][2]["b"]) == 1:
+                return is_pos_plus(ds[0][2]["a"], depth + 1)
+            return False
+        if pl["p"]:
+            return False
+        ds = defs.get(pl["l"], [])
+        if len(ds) == 1 and ds[0][1] != "term" and ds[0][2]["k"] == "use":
+            return is_pos_plus(ds[0][2]["op"], depth + 1)
+        return False
+    def root(op, depth=0):
+        """The local / parameter a length or an iterator is ultimately taken from (through calls' receivers)."""
+        for _ in range(8):
+            o = common.origin(fn, defs, op)
+            if o["k"] == "param":
+                return ("param", o["l"])
+            if o["k"] == "place":
+                pl = o["pl"]
+                base = {"c": "copy", "pl": {"l": pl["l"], "p": []}}
+                if pl["p"] and any(isinstance(e, dict) and e.get("n") == "Some" for e in pl["p"]):
+                    op = base
+                    continue
+                return ("place", pl["l"], tuple(repr(e) for e in pl["p"]))
+            if o["k"] == "call" and o["t"]["args"]:
+                op = o["t"]["args"][0]
+                continue
+            if o["k"] == "other" and o["rv"] and o["rv"].get("k") == "un":
+                op = o["rv"]["a"]
+                continue
+            return None
+        return None
+
+    def pos_source(op, depth=0):
+        # strip `+ 1` and copies down to the position()/rposition() call, then take its receiver
+        for _ in range(6):
+            if op.get("c") not in ("copy", "move"):
+                return None
+            pl = op["pl"]
+            ds = defs.get(pl["l"], [])
+            if len(ds) != 1:
+                return None
+            (_b, si, d) = ds[0]
+            if si == "term":
+                return d["args"][0] if d.get("args") else None
+            if d["k"] == "bin":
+                op = d["a"]
+            elif d["k"] == "use":
+                op = d["op"]
+            else:
+                return None
+        return None
+
+    if not (is_len(a) and is_pos_plus(b)):
+        return False
+    ra, src = root(a), pos_source(b)
+    rb = root(src) if src is not None else None
+    return ra is not None and ra == rb
 
 
 def _is_usize_place(fn, op):
@@ -159,7 +303,7 @@ def scan(rule, crate, fn_pred, table):
         idom = cfg.dominators(fn)
         for it in inv:
             n += 1
-            why = discharge(fn, it, defs, idom)
+            why = discharge(fn, it, defs, idom, crate)
             if why:
                 rule.ok("%s: %s overflow check discharged: %s" % (fn.path, it["detail"], why), fn, it["line"])
                 continue
